@@ -96,8 +96,15 @@ async fn vf_git_changes_exact() {
     println!("VF-SUMMARY test=git_changes_exact checked={} nontrivial={} bad={}", checked, checked, bad);
 }
 
-#[tokio::test(flavor = "multi_thread", worker_threads = 2)]
-async fn vf_pending_fixpoint() {
+#[test]
+fn vf_pending_fixpoint() {
+    // the futures of handle_checkpoint_update / get_git_all_changes are deep in a debug build: run on a thread with a large stack
+    let h = std::thread::Builder::new().stack_size(512 << 20).spawn(|| {
+        tokio::runtime::Builder::new_multi_thread().worker_threads(2).thread_stack_size(256 << 20).enable_all().build().unwrap().block_on(pending_fixpoint_body())
+    }).unwrap();
+    h.join().unwrap();
+}
+async fn pending_fixpoint_body() {
     // C07: right after `checkpoint update --pending` - whatever is modified, staged, untracked, deleted or moved - nothing is reported as
     // changed; a later edit to content the file never had, a new file or a deletion is reported (exactly that path), and a further update
     // clears it again
@@ -129,6 +136,23 @@ async fn vf_pending_fixpoint() {
     }
     checked += 1;
     if let Err(e) = update().await { bad += 1; println!("VF-FAIL second `checkpoint update --pending` :: failed: {} (C07)", e); }
-    expect("immediately after a second `checkpoint update --pending`", report().await, vec![], &mut bad);
+    // everything that was dirty before the first update and has not been touched since is still dirty against HEAD: the second update
+    // must record it again
+    expect("immediately after a second `checkpoint update --pending` (files dirty since before the first update untouched in between)", report().await, vec![], &mut bad);
+    // an empty file is not a missing file
+    let steps2: Vec<(&str, Box<dyn Fn()>, Vec<&str>)> = vec![
+        ("a committed file is truncated to zero bytes", Box::new(|| write(&r.dir, "d/added in c2.txt", "")), vec!["d/added in c2.txt"]),
+    ];
+    for (what, act, want) in steps2 { checked += 1; act(); expect(&format!("after the second update, then: {}", what), report().await, want, &mut bad); }
+    checked += 1;
+    if let Err(e) = update().await { bad += 1; println!("VF-FAIL third `checkpoint update --pending` :: failed: {} (C07)", e); }
+    expect("immediately after a third `checkpoint update --pending` (one file is empty now)", report().await, vec![], &mut bad);
+    checked += 1;
+    std::fs::remove_file(r.dir.join("d/added in c2.txt")).unwrap();
+    expect("after the third update, then: the file that was recorded while EMPTY is deleted", report().await, vec!["d/added in c2.txt"], &mut bad);
+    checked += 1;
+    if let Err(e) = update().await { bad += 1; println!("VF-FAIL fourth `checkpoint update --pending` :: failed: {} (C07)", e); }
+    write(&r.dir, "d/added in c2.txt", "");
+    expect("after a fourth update that recorded the file as DELETED, then: it is re-created empty", report().await, vec!["d/added in c2.txt"], &mut bad);
     println!("VF-SUMMARY test=pending_fixpoint checked={} nontrivial={} bad={}", checked, checked, bad);
 }
